@@ -45,6 +45,19 @@ pub unsafe extern "C" fn waitpid(pid: libc::pid_t, status: *mut libc::c_int, opt
     if !crate::clock_is_simulated() || options & libc::WNOHANG != 0 {
         return real(options);
     }
+    if crate::multi::active() {
+        // (Engine M) the wait runs on a pool thread of its own: it looks again whenever another thread of the
+        // run has done something (the child's script is made of the main thread's environment actions)
+        let mut looked_only = false;
+        loop {
+            let r = real(options | libc::WNOHANG);
+            if r != 0 {
+                return r;
+            }
+            crate::multi::wait_in_kernel(None, looked_only);
+            looked_only = true;
+        }
+    }
     loop {
         let r = real(options | libc::WNOHANG);
         if r != 0 {
